@@ -662,6 +662,7 @@ func genC11Curve(g *gen, name string, c kzgCurve) {
 	}
 
 	genC11Cancel(g, name, c, tuple, tauTok, distinctLams)
+	genC11Vanish(g, name, c, tauTok, distinctLams)
 
 	// --- serialisation round trips
 	for _, size := range []int{2, 3, N} {
